@@ -6,265 +6,13 @@
 //! Count/GF(17); share-linearity and length menus; deployed fields on randomness lattices and
 //! seeded lines (pigeonhole counting).
 use prio::field::verif::{FieldV17, FieldV193, FieldV97};
-use prio::field::{Field128, Field64, FieldElement, FieldElementWithInteger, NttFriendlyFieldElement};
+use prio::field::{Field128, Field64};
 use prio::flp::{FlpError, Type};
-use pvh::engine::{catch, fnv, par, splitmix, Level, Run};
+use pvh::engine::{catch, fnv, splitmix, Level, Run};
+use pvh::kit::flpexh::{adversarial_count, vf, SmallCfg, SmallExh};
 use pvh::kit::flpkit::{build, Spec, Visit};
-use pvh::kit::ints::{modpow, nth_vector, pow_u64, IntConv, KitField};
+use pvh::kit::ints::{modpow, IntConv, KitField};
 use serde_json::json;
-use std::sync::atomic::{AtomicU64, Ordering};
-use std::sync::Mutex;
-
-fn vf<F: KitField>(x: &[u128]) -> Vec<F>
-where
-    F::Integer: IntConv,
-{
-    x.iter().map(|v| F::fe(*v)).collect()
-}
-
-/// All tuples of F^len if there are at most `cap`, else alphabet^len if at most `cap`, else the
-/// alphabet diagonal plus seeded tuples. Returns (tuples, exhaustive).
-fn tuples(p: u64, len: usize, cap: u64, alphabet: &[u128], seed: u64) -> (Vec<Vec<u128>>, bool) {
-    if let Some(n) = pow_u64(p, len) {
-        if n <= cap {
-            return ((0..n).map(|i| nth_vector(i, len, p)).collect(), true);
-        }
-    }
-    let a = alphabet.len() as u64;
-    if let Some(n) = pow_u64(a, len) {
-        if n <= cap {
-            return (
-                (0..n).map(|i| nth_vector(i, len, a).iter().map(|j| alphabet[*j as usize]).collect()).collect(),
-                false,
-            );
-        }
-    }
-    let mut out: Vec<Vec<u128>> = alphabet.iter().map(|v| vec![*v; len]).collect();
-    let mut st = seed;
-    while (out.len() as u64) < cap.min(64) {
-        out.push((0..len).map(|_| (splitmix(&mut st) % p) as u128).collect());
-    }
-    (out, false)
-}
-
-struct SmallCfg {
-    cap_inputs: u64,
-    cap_joint: u64,
-    cap_prove: u64,
-    cap_query: u64,
-}
-
-struct SmallExh<'a> {
-    run: &'a Run,
-    cfg: SmallCfg,
-    thin_r: bool,
-}
-
-impl<'a, F: KitField> Visit<F> for SmallExh<'a>
-where
-    F::Integer: IntConv,
-{
-    type Out = ();
-    fn visit<T: Type<Field = F> + Send + Sync + 'static>(self, spec: &Spec, t: T) {
-        let run = self.run;
-        let p = F::p();
-        let pu = p as u64;
-        let name = format!("{}@GF({})", spec.name(), p);
-        let n = t.input_len();
-        // declared lengths against the spec formulas
-        let pl = spec.wire_poly_len();
-        let arity = if spec.chunk() > 0 { 2 * spec.chunk() } else if matches!(spec, Spec::Count) { 2 } else { 1 };
-        let want_proof_len = arity + spec.gadget_degree() * (pl - 1) + 1;
-        let want_qr = 1 + if spec.outputs() > 1 { spec.outputs() } else { 0 };
-        if n != spec.input_len() || t.proof_len() != want_proof_len || t.verifier_len() != arity + 2 || t.prove_rand_len() != arity || t.query_rand_len() != want_qr || t.eval_output_len() != spec.outputs() {
-            run.fail(&format!("small/{name}/declared_len"), &format!("{name}: declared lengths differ from the specification (input {} proof {} verifier {} prove_rand {} query_rand {})", n, t.proof_len(), t.verifier_len(), t.prove_rand_len(), t.query_rand_len()), json!({"spec": spec.name()}));
-            return;
-        }
-        let alphabet: Vec<u128> = vec![0, 1, p - 1, 2, p / 2, 3];
-        let n_inputs = pow_u64(pu, n).filter(|x| *x <= self.cfg.cap_inputs);
-        let inputs_exh = n_inputs.is_some();
-        let (inputs, _) = tuples(pu, n, self.cfg.cap_inputs, &alphabet[..4], run.seed);
-        let (joints, j_exh) = tuples(pu, t.joint_rand_len(), self.cfg.cap_joint, &alphabet, run.seed ^ 1);
-        let (proves, p_exh) = tuples(pu, t.prove_rand_len(), self.cfg.cap_prove, &alphabet[..3], run.seed ^ 2);
-        // query randomness = (compression part, gadget part): gadget part always exhaustive
-        let nq_val = t.query_rand_len() - 1;
-        let (qvals, q_exh) = tuples(pu, nq_val, self.cfg.cap_query, &alphabet, run.seed ^ 3);
-        let bound = spec.soundness_bound(p);
-        let evals = AtomicU64::new(0);
-        let refused_n = AtomicU64::new(0);
-        let acc_invalid = AtomicU64::new(0);
-        let n_invalid_inputs = AtomicU64::new(0);
-        let worst: Mutex<(f64, Vec<u128>)> = Mutex::new((0.0, vec![]));
-        par::for_each(inputs.len() as u64, |ii| {
-            let x = &inputs[ii as usize];
-            let valid = spec.is_valid(x, p);
-            let xf: Vec<F> = vf(x);
-            let (mut total, mut accepted) = (0u64, 0u64);
-            let adm_first = (0..p).find(|r| modpow(*r, pl as u128, p) != 1).unwrap();
-            let adm_last = (0..p).rev().find(|r| modpow(*r, pl as u128, p) != 1).unwrap();
-            let mut first_jr_pr = 0usize;
-            for jr in &joints {
-                let jrf: Vec<F> = vf(jr);
-                for pr in &proves {
-                    let prf: Vec<F> = vf(pr);
-                    first_jr_pr += 1;
-                    let proof = match catch(|| t.prove(&xf, &prf, &jrf)) {
-                        Ok(Ok(pf)) => pf,
-                        Ok(Err(e)) => {
-                            run.fail(&format!("small/{name}/prove_err"), &format!("{name}: prove failed on well-formed arguments: {e}"), json!({"spec": spec.name(), "p": p.to_string(), "x": x, "jr": jr, "pr": pr}));
-                            return;
-                        }
-                        Err(m) => {
-                            run.fail(&format!("small/{name}/prove_panic"), &format!("{name}: prove panicked: {m}"), json!({"spec": spec.name(), "p": p.to_string(), "x": x, "jr": jr, "pr": pr}));
-                            return;
-                        }
-                    };
-                    if proof.len() != t.proof_len() {
-                        run.fail(&format!("small/{name}/proof_len"), &format!("{name}: proof has {} elements, declared {}", proof.len(), t.proof_len()), json!({"spec": spec.name()}));
-                        return;
-                    }
-                    // the proof's first `arity` elements are the wire seeds = prove randomness
-                    for (qi, qv) in qvals.iter().enumerate() {
-                        for r in 0..p {
-                            // quick tier: every gadget point for the first compression vector of each
-                            // (x, jr, pr); afterwards only the first and last admissible points (the
-                            // decision of an honest proof does not depend on the gadget point)
-                            if self.thin_r && qi + first_jr_pr > 1 && r != adm_first && r != adm_last {
-                                continue;
-                            }
-                            let mut qr = qv.clone();
-                            qr.push(r);
-                            let qrf: Vec<F> = vf(&qr);
-                            let expect_refused = modpow(r, pl as u128, p) == 1;
-                            let res = catch(|| t.query(&xf, &proof, &qrf, &jrf, 1));
-                            evals.fetch_add(1, Ordering::Relaxed);
-                            let case = || json!({"spec": spec.name(), "p": p.to_string(), "x": x, "jr": jr, "pr": pr, "qr": qr});
-                            let verifier = match res {
-                                Err(m) => {
-                                    run.fail(&format!("small/{name}/query_panic"), &format!("{name}: query panicked: {m}"), case());
-                                    return;
-                                }
-                                Ok(Err(FlpError::Query(_))) if expect_refused => {
-                                    refused_n.fetch_add(1, Ordering::Relaxed);
-                                    continue;
-                                }
-                                Ok(Err(e)) => {
-                                    run.fail(&format!("small/{name}/query_err"), &format!("{name}: query refused admissible randomness r={r}: {e}"), case());
-                                    return;
-                                }
-                                Ok(Ok(_)) if expect_refused => {
-                                    run.fail(&format!("small/{name}/root_not_refused"), &format!("{name}: query randomness r={r} is a {pl}-th root of unity (would reveal a wire value) but was not refused"), case());
-                                    return;
-                                }
-                                Ok(Ok(v)) => v,
-                            };
-                            if verifier.len() != t.verifier_len() {
-                                run.fail(&format!("small/{name}/verifier_len"), &format!("{name}: verifier has {} elements, declared {}", verifier.len(), t.verifier_len()), case());
-                                return;
-                            }
-                            let d = match catch(|| t.decide(&verifier)) {
-                                Ok(Ok(d)) => d,
-                                other => {
-                                    run.fail(&format!("small/{name}/decide_err"), &format!("{name}: decide failed: {:?}", other.map(|r| r.map_err(|e| e.to_string()))), case());
-                                    return;
-                                }
-                            };
-                            // uniform weights for the counting rule: in thin mode count only the two
-                            // canonical gadget points, which are queried for every (jr, pr, qv)
-                            if !self.thin_r || r == adm_first || r == adm_last {
-                                total += 1;
-                                if d {
-                                    accepted += 1;
-                                }
-                            }
-                            if valid && !d {
-                                run.fail(&format!("small/{name}/completeness"), &format!("{name}: honest proof for VALID input {:?} rejected (jr={:?} pr={:?} qr={:?})", x, jr, pr, qr), case());
-                                return;
-                            }
-                        }
-                    }
-                }
-            }
-            if !valid {
-                n_invalid_inputs.fetch_add(1, Ordering::Relaxed);
-                acc_invalid.fetch_add(accepted, Ordering::Relaxed);
-                let frac = accepted as f64 / total.max(1) as f64;
-                {
-                    let mut w = worst.lock().unwrap();
-                    if frac > w.0 {
-                        *w = (frac, x.clone());
-                    }
-                }
-                // counting rule: only meaningful when the randomness that matters was enumerated
-                // exhaustively (else a structured alphabet could legitimately over-represent roots)
-                if j_exh && q_exh && frac > bound + 1e-9 {
-                    run.fail(&format!("small/{name}/soundness"), &format!("{name}: honest proof for INVALID input {:?} accepted for {accepted} of {total} randomness values ({:.3} > soundness bound {:.3})", x, frac, bound), json!({"spec": spec.name(), "p": p.to_string(), "x": x, "accepted": accepted, "total": total}));
-                }
-            }
-        });
-        run.count("evaluations", evals.load(Ordering::Relaxed));
-        run.count("small_refusals", refused_n.load(Ordering::Relaxed));
-        run.count("small_invalid_inputs", n_invalid_inputs.load(Ordering::Relaxed));
-        run.count("small_invalid_accepts_within_bound", acc_invalid.load(Ordering::Relaxed));
-        run.distinct_many(inputs.iter().map(|x| fnv(format!("{name}/{:?}", x).as_bytes())));
-        let w = worst.lock().unwrap();
-        run.sample(json!({"instance": name, "inputs": inputs.len(), "inputs_exhaustive": inputs_exh, "joint": joints.len(), "joint_exhaustive": j_exh, "prove": proves.len(), "prove_exhaustive": p_exh, "query_compress": qvals.len(), "query_exhaustive": q_exh, "worst_invalid_accept_fraction": w.0, "worst_input": w.1, "bound": bound}));
-    }
-}
-
-// ---------------------------------------------------------------------------------------------
-/// Adversarial prover for Count over GF(17): every proof (or every gadget-polynomial part).
-fn adversarial_count(run: &Run, full: bool) {
-    use prio::flp::types::Count;
-    use prio::flp::Flp;
-    type F = FieldV17;
-    let t = Count::<F>::new();
-    let p = 17u64;
-    let nproofs = if full { 17u64.pow(5) } else { 17u64.pow(3) };
-    let max_acc = AtomicU64::new(0);
-    let evals = AtomicU64::new(0);
-    par::for_each_chunked(nproofs, 64, |i| {
-        let proof_v: Vec<u128> = if full {
-            nth_vector(i, 5, p)
-        } else {
-            // honest seeds (3, 5), arbitrary gadget polynomial
-            let mut v = vec![3, 5];
-            v.extend(nth_vector(i, 3, p));
-            v
-        };
-        let proof: Vec<F> = vf(&proof_v);
-        for x in 0..17u128 {
-            let valid = x <= 1;
-            let mut accepted = 0u64;
-            let mut total = 0u64;
-            for r in 0..17u128 {
-                if r * r % 17 == 1 {
-                    continue; // refused (P = 2)
-                }
-                let v = t.query(&[F::fe(x)], &proof, &[F::fe(r)], &[], 1).unwrap();
-                total += 1;
-                if t.decide(&v).unwrap() {
-                    accepted += 1;
-                }
-            }
-            evals.fetch_add(total, Ordering::Relaxed);
-            if !valid {
-                max_acc.fetch_max(accepted, Ordering::Relaxed);
-                // FLP soundness: gadget polynomial p of degree <= 2 (3 points) vs G(f(.)) of degree 2:
-                // they agree on <= 2 of the admissible points unless identical, and when identical the
-                // circuit output x^2-x != 0 is exposed -> at most d(P-1) = 2 accepting points.
-                if accepted > 2 {
-                    run.fail("adv/Count@GF(17)/soundness", &format!("Count@GF(17): invalid input {x} with adversarial proof {:?} accepted at {accepted} of {total} admissible query points (> d(P-1)=2)", proof_v), json!({"proof": proof_v, "x": x, "accepted": accepted}));
-                }
-            }
-        }
-    });
-    run.count("evaluations", evals.load(Ordering::Relaxed));
-    run.count("adversarial_proofs", nproofs);
-    run.note("adversarial_max_accepting_points_for_invalid_input", json!(max_acc.load(Ordering::Relaxed)));
-    run.distinct_many((0..nproofs.min(100_000)).map(|i| fnv(format!("advproof/{i}").as_bytes())));
-    run.sample(json!({"adversarial": "Count@GF(17)", "proofs": nproofs, "inputs": 17, "query_points": 15, "max_accepting_points_invalid": max_acc.load(Ordering::Relaxed)}));
-}
 
 // ---------------------------------------------------------------------------------------------
 /// Share linearity + length menu for one instance (any field).
@@ -405,7 +153,7 @@ where
             w.resize(l, F::one());
             w
         };
-        let mut menu = |what: &str, declared: usize, f: &dyn Fn(usize) -> Result<bool, String>| {
+        let menu = |what: &str, declared: usize, f: &dyn Fn(usize) -> Result<bool, String>| {
             for l in 0..=declared + 2 {
                 if l == declared {
                     continue;
